@@ -146,7 +146,7 @@ def check_desc(res, model, desc, rng, tag, channel_b=False, after=None):
             res.violation("correspondence", f"flat Jacobian length {len(flat)} != model {len(a.m_jac)}", case)
         else:
             corr_jac(res, a, flat, "channel A (ode.jac.rhs)", case)
-    if channel_b:
+    if channel_b and not desc.get("heating"):          # user-registered heating processes exist in channel A only
         for solver, method, device in [("cvode", "dense", "cpu"), ("cvode", "sparse", "cpu"), ("cvode", "cusparse", "gpu"), ("odeint", "rosenbrock4", "cpu")]:
             net = ol.build_network(desc)
             tmpl = (["src/naunet_ode.cpp.j2"] if solver == "odeint" else ["src/naunet_jac.cpp.j2", "src/naunet_fex.cpp.j2"]) + ["include/naunet_macros.h.j2"]
@@ -199,7 +199,7 @@ def run(res, info):
     for i, d in enumerate(MOD_FIXED + c01.FIXED):
         check_desc(res, model, d, rng, ("fixed", i), channel_b=True)
     for i in range(n_a):
-        desc = c01.gen_desc(rng, "small" if i % 6 else "large")
+        desc = c01.gen_desc(rng, "small" if i % 6 else "large", allow_heating=True)
         check_desc(res, model, desc, rng, i, channel_b=(i < n_b))
         if i % 3 == 0:
             d2 = ol.follow_up(rng, desc)
